@@ -32,6 +32,9 @@ def dispatch(pid, tier, replay):
     if pid == "C09":
         import content_checks
         return content_checks.c09(tier)
+    if pid == "C20":
+        import session_checks
+        return session_checks.c20(tier)
     raise common.MachineryError("no check for " + pid)
 
 
